@@ -2,7 +2,7 @@
 # Full validation of the machinery (about 2 h on 16 cores): every stored seeded change is still caught,
 # no alarm on the 15 behaviour-preserving changes, determinism selfcheck, 5-seed sweep on the unchanged tree.
 # Modifies /repo temporarily (applies and reverts patches): run nothing else against /repo meanwhile.
-cd /verif
+cd "$(dirname "$0")" || exit 2
 echo "== recheck"; ./tools_recheck.sh 2>&1 | grep -v "exit 1" 
 echo "== benign"; for d in benign/B*/; do ./tools_benign.sh /verif/${d%/} 2>&1 | grep -E "ALARM|benign|candidate|VIOLATION|does not apply|harness"; done
 echo "== selfcheck"; ./check selfcheck 3000 2>&1 | tail -2
